@@ -4,6 +4,7 @@ mod drive;
 mod explore;
 mod fw;
 mod props;
+mod sched;
 
 use fw::{Prop, RunCfg, Tier};
 
